@@ -1091,7 +1091,15 @@ class _Parser(object):
     def _handle_set_operator(self, operator, values):
         if operator == '$in':
             expression, array = values
-            return self.parse(expression) in self.parse(array)
+            # A missing value is in no array, and a null or missing second operand is
+            # not an array.
+            parsed_expression = self._parse_or_nothing(expression)
+            parsed_array = self._parse_or_nothing(array)
+            if not isinstance(parsed_array, (list, tuple)):
+                raise OperationFailure(
+                    '$in requires an array as a second argument, found: %s' %
+                    ('missing' if parsed_array is NOTHING else type(parsed_array)))
+            return parsed_expression in parsed_array
         if operator == '$setUnion':
             result = []
             for set_value in values:
